@@ -1,5 +1,7 @@
 // vdrive: drives the real bandprotocol/chain code with abstract scripts and records ndjson traces
 // for TLC trace validation.  usage: vdrive <family> [flags]
+//
+// Each family registers itself from its own file cmd/vdrive/fam_<name>.go (func init -> register).
 package main
 
 import (
@@ -8,40 +10,30 @@ import (
 	"fmt"
 	"math/rand"
 	"os"
+	"sort"
 
-	"vdrive/fam_oracle"
 	tf "vdrive/tracefmt"
 )
 
-type common struct {
-	scripts string
-	nrand   int
-	seed    int64
-	out     string
-	stats   string
-	mode    string
+// Common holds the flags shared by all families.
+type Common struct {
+	Scripts []tf.Script
+	NRand   int
+	Seed    int64
+	Out     string
+	Stats   string
+	Mode    string
+	Rng     *rand.Rand
+	W       *tf.Writer
+	Args    []string // remaining args
 }
 
-func parse(args []string) common {
-	var c common
-	fs := flag.NewFlagSet("vdrive", flag.ExitOnError)
-	fs.StringVar(&c.scripts, "scripts", "", "ndjson file of abstract scripts (from TLC GEN)")
-	fs.IntVar(&c.nrand, "nrand", 0, "number of random scripts")
-	fs.Int64Var(&c.seed, "seed", 1, "random seed")
-	fs.StringVar(&c.out, "out", "trace.ndjson", "trace output")
-	fs.StringVar(&c.stats, "stats", "", "stats json output")
-	fs.StringVar(&c.mode, "mode", "", "family specific mode")
-	_ = fs.Parse(args)
-	return c
-}
+// FamilyFn runs a family and returns its stats (must contain traces, events, interesting).
+type FamilyFn func(c *Common) map[string]interface{}
 
-func writeStats(path string, v interface{}) {
-	if path == "" {
-		return
-	}
-	b, _ := json.MarshalIndent(v, "", " ")
-	_ = os.WriteFile(path, b, 0o644)
-}
+var families = map[string]FamilyFn{}
+
+func register(name string, fn FamilyFn) { families[name] = fn }
 
 func main() {
 	if len(os.Args) < 2 {
@@ -49,37 +41,43 @@ func main() {
 		os.Exit(2)
 	}
 	fam := os.Args[1]
-	c := parse(os.Args[2:])
-	rng := rand.New(rand.NewSource(c.seed))
-	w, err := tf.NewWriter(c.out)
-	if err != nil {
-		panic(err)
-	}
-	scripts, err := tf.ReadScripts(c.scripts)
-	if err != nil {
-		panic(err)
-	}
-	switch fam {
-	case "oracle":
-		d := fam_oracle.NewDriver(w)
-		d.Mode = c.mode
-		defer d.Close()
-		for _, s := range scripts {
-			d.RunScript(s)
+	fn, ok := families[fam]
+	if !ok {
+		var names []string
+		for n := range families {
+			names = append(names, n)
 		}
-		for i := 0; i < c.nrand; i++ {
-			if c.mode == "c15" {
-				d.RunScript(fam_oracle.RandomScriptC15(rng))
-			} else {
-				d.RunScript(fam_oracle.RandomScript(rng))
-			}
-		}
-		writeStats(c.stats, map[string]interface{}{"traces": d.St.Traces, "events": d.St.Events, "interesting": d.St.Interesting})
-	default:
-		fmt.Fprintln(os.Stderr, "unknown family", fam)
+		sort.Strings(names)
+		fmt.Fprintln(os.Stderr, "unknown family", fam, "; known:", names)
 		os.Exit(2)
 	}
+	var c Common
+	var scripts string
+	fs := flag.NewFlagSet("vdrive", flag.ExitOnError)
+	fs.StringVar(&scripts, "scripts", "", "ndjson file of abstract scripts (from TLC GEN or a replay)")
+	fs.IntVar(&c.NRand, "nrand", 0, "number of random scripts")
+	fs.Int64Var(&c.Seed, "seed", 1, "random seed")
+	fs.StringVar(&c.Out, "out", "trace.ndjson", "trace output")
+	fs.StringVar(&c.Stats, "stats", "", "stats json output")
+	fs.StringVar(&c.Mode, "mode", "", "family specific mode")
+	_ = fs.Parse(os.Args[2:])
+	c.Args = fs.Args()
+	c.Rng = rand.New(rand.NewSource(c.Seed))
+	w, err := tf.NewWriter(c.Out)
+	if err != nil {
+		panic(err)
+	}
+	c.W = w
+	c.Scripts, err = tf.ReadScripts(scripts)
+	if err != nil {
+		panic(err)
+	}
+	stats := fn(&c)
 	if err := w.Close(); err != nil {
 		panic(err)
+	}
+	if c.Stats != "" {
+		b, _ := json.MarshalIndent(stats, "", " ")
+		_ = os.WriteFile(c.Stats, b, 0o644)
 	}
 }
